@@ -327,8 +327,7 @@ Definition ret_expect (p : op) (x : actor) (o : oid) : option rval :=
 
 (** the end of the loop task, on every path: the loop future's captures are dropped *)
 Definition teardown (s : sys) (a : aid) (x : actor) (ex : exitk) (nf : notif) : res sys :=
-  let x1 := set_a_crashing false
-            (set_a_exit (Some ex) (set_a_notif nf (set_a_phase PhDone (abort_timers (rx_drop x))))) in
+  let x1 := set_a_exit (Some ex) (set_a_notif nf (set_a_phase PhDone (abort_timers (rx_drop x)))) in
   let s1 := cancel_all (put_actor s a x1) (a_queue x) in
   drop_handles s1 (List.map snd (a_children x)) 1410.
 
@@ -727,8 +726,9 @@ Definition step (s : sys) (e : event) : res sys :=
       | EndReturned, PhExiting => teardown s a x (XOk (a_state x)) NFired
       | EndReturned, PhFailing => teardown s a x XErr NDropped
       | EndPanicked, PhPanicking => teardown s a x XPanic NDropped
-      | EndCancelled, _ =>
+      | EndCancelled, ph =>
           check a_crashing x else 1402 ;;
+          check (match ph with PhDone => false | _ => true end) else 1404 ;;
           teardown s a x XCancel NDropped
       | _, _ => Rej 1403
       end
